@@ -24,8 +24,8 @@ def check_one(name, opts, desc, aseed, stats):
   params = E.materialize(name, opts, data, aseed)
   est = E.build(name, params)
   with recorded_warnings() as w:
-    r = call('C03/fit/%s' % name, est.fit, *E.fit_args(name, data),
-             expect=(RuntimeError,) if 'SDML' in name else ())
+    r = E.fit_call('C03/fit', name, est, E.fit_args(name, data), desc, params,
+                   expect=(RuntimeError,) if 'SDML' in name else (), report_kf=True)
   if isinstance(r, Exception):
     stats.inconclusive['SDML RuntimeError (specified)'] += 1
     return
